@@ -36,6 +36,7 @@ pub struct Profile {
     pub p_drop: u32,
     pub p_panic: u32,
     pub p_wrong_kind: u32,
+    pub p_panic_end: u32,
     pub deep: bool,
     pub page_4k_only: bool,
 }
@@ -70,6 +71,7 @@ impl Profile {
             p_drop: 50,
             p_panic: 15,
             p_wrong_kind: 30,
+            p_panic_end: 8,
             deep: true,
             page_4k_only: false,
         }
@@ -108,6 +110,7 @@ impl Profile {
             }
             "C05" => {
                 p.name = "abandon";
+                p.p_panic_end = 60;
                 p.p_abort = 350;
                 p.p_drop = 200;
                 p.p_panic = 80;
@@ -132,6 +135,7 @@ impl Profile {
             }
             "C08" => {
                 p.name = "faults";
+                p.p_panic_end = 0;
                 p.deep = false;
                 p.steps = (2, 10);
                 p.ops = (1, 8);
@@ -159,6 +163,7 @@ impl Profile {
             }
             "C11" => {
                 p.name = "reopen";
+                p.p_panic_end = 40;
                 p.w_reopen = 12;
                 p.w_crash = 10;
                 p.w_integrity = 10;
@@ -190,6 +195,7 @@ impl Profile {
             }
             "C19" => {
                 p.name = "compat";
+                p.p_panic_end = 0;
                 p.page_4k_only = true;
                 p.w_readonly = 0;
                 p.w_dropdb = 0;
@@ -555,6 +561,8 @@ impl<'a> Gen<'a> {
                 End::Abort
             } else if r < p.p_abort + p.p_drop {
                 End::Drop
+            } else if r < p.p_abort + p.p_drop + p.p_panic_end {
+                End::Panic
             } else {
                 End::Commit
             }
